@@ -449,6 +449,9 @@ class SReal:
                 rn, rd = _math.isqrt(f.numerator), _math.isqrt(f.denominator)
                 if rn * rn == f.numerator and rd * rd == f.denominator:
                     return self._w(z3.RealVal(fractions.Fraction(rn, rd)))
+        if z3.is_mul(key) and key.num_args() == 2 and key.arg(0).eq(key.arg(1)):
+            x = key.arg(0)                      # sqrt(x*x) = |x|: keeps collinear configurations in linear arithmetic
+            return self._w(z3.If(x >= 0, x, -x))
         r = self.eng.freshreal("sqrt")
         self.eng.axioms.append(z3.And(r >= 0, r * r == key))
         memo[k] = r
